@@ -86,6 +86,15 @@ fn route_result(kind: &str, code: i32) -> (String, i64) {
                     (j["err"].as_str().unwrap().to_string(), j["code"].as_i64().unwrap_or(0))
                 }
             }
+        } else if kind == "shxheader" {
+            // the header of the index file carries the code (the .shp one is a valid, empty point file)
+            match ShapeReader::with_shx(Cursor::new(header_with(1)), Cursor::new(header_with(code))) {
+                Ok(_) => ("ok".to_string(), code as i64),
+                Err(e) => {
+                    let j = err_json(&e);
+                    (j["err"].as_str().unwrap().to_string(), j["code"].as_i64().unwrap_or(0))
+                }
+            }
         } else {
             let b = record_with(code);
             match ShapeReader::new(Cursor::new(b)).and_then(|mut r| r.iter_shapes().next().unwrap()) {
@@ -136,7 +145,7 @@ pub fn run_c19(a: &Args, out: &PathBuf) -> Value {
     }
     interesting.sort();
     interesting.dedup();
-    for kind in ["header", "record"] {
+    for kind in ["header", "shxheader", "record"] {
         for &v in &interesting {
             let (res, code) = route_result(kind, v);
             tr.emit(json!({"ev": "route", "kind": kind, "value": v, "res": res, "code": code}));
@@ -144,7 +153,7 @@ pub fn run_c19(a: &Args, out: &PathBuf) -> Value {
     }
     // bulk: the routes must agree with ShapeType::from on validity and carry the value
     let mut r = Rng::new(seed ^ 0xc19);
-    for kind in ["header", "record"] {
+    for kind in ["header", "shxheader", "record"] {
         let mut tested = 0u64;
         let mut bad: Vec<i64> = vec![];
         let mut check = |v: i32, bad: &mut Vec<i64>| {
@@ -152,7 +161,7 @@ pub fn run_c19(a: &Args, out: &PathBuf) -> Value {
             let valid = ShapeType::from(v).is_some();
             // a valid code in a record of another layout may fail for other reasons; never as an invalid type
             let ok = if valid {
-                if kind == "header" { res == "ok" && code == v as i64 } else { res != "invalid_type" && res != "panic" }
+                if kind != "record" { res == "ok" && code == v as i64 } else { res != "invalid_type" && res != "panic" }
             } else {
                 res == "invalid_type" && code == v as i64
             };
